@@ -31,9 +31,9 @@ def rand_sm(rng, negative=False):
     if negative:
         which = rng.choice(["bpm", "stop", "both"])
         if which in ("bpm", "both"):
-            props[2][1] = "0.000=120.000,\n4.000=-60.000"
+            props[2][1] = rng.choice(["0.000=120.000,\n4.000=-60.000", "0.000=120.000,\n4.000=-60.000", "0=120,8=-240,8=240", "0=120,8.000=-240,8.004=240,12=90", "0=-120"])
         if which in ("stop", "both"):
-            props[3][1] = "2.000=-0.500"
+            props[3][1] = rng.choice(["2.000=-0.500", "2.000=-0.500", "4=-0.5,4=0.25", "1=0.25,\n4.000=-0.5,\n4.001=0.25"])      # a negative value followed by another row on the same beat / tick
     for key, vals in (("DELAYS", ["", "3.000=0.300"]), ("WARPS", ["", "5.000=1.000"]), ("ANIMATIONS", ["a"]), ("BGCHANGES", ["b"]), ("ORIGIN", ["x"]),
                       ("LABELS", ["0=y"]), ("ATTACKS", ["a:b", None, ""]), ("DISPLAYBPM", ["1:2", "*", None]), ("ARTIST", ["猫"]), ("EXTRA KEY", ["v", None]),
                       ("SUBTITLE", [None, ""])):       # None: a key-only property (#ATTACKS;), which an SM file may hold for any key
